@@ -28,6 +28,7 @@ func ruleR41(c *Ctx) {
 		const (
 			evDEC = iota
 			evVAC
+			evINC
 		)
 		ev := func(b *cfg.Block, i int, nd ast.Node) []int {
 			var out []int
@@ -36,6 +37,9 @@ func ruleR41(c *Ctx) {
 				case *ast.IncDecStmt:
 					if y.Tok == token.DEC && strings.HasSuffix(exprText(y.X), "childrenLen") {
 						out = append(out, evDEC)
+					}
+					if y.Tok == token.INC && strings.HasSuffix(exprText(y.X), "childrenLen") {
+						out = append(out, evINC)
 					}
 				case *ast.CallExpr:
 					if isBuiltinCall(info, y, "copy") && len(y.Args) == 2 && strings.Contains(exprText(y.Args[0]), "children") {
@@ -53,10 +57,22 @@ func ruleR41(c *Ctx) {
 			})
 			return out
 		}
-		res := runPaths(g, []string{"FANOUT-", "VACATE"}, ev, nil)
+		res := runPaths(g, []string{"FANOUT-", "VACATE", "FANOUT+"}, ev, nil)
 		bad := false
 		for _, b := range g.Blocks {
 			for _, s := range res.exits[b] {
+				// the converse: a path that takes a child out counts it out, exactly once
+				if (s.n[evVAC] > 0 && s.n[evDEC] != 1) || s.n[evINC] > 0 || s.n[evDEC] > 1 {
+					bad = true
+					pos := u.Decl.Pos()
+					if len(b.Nodes) > 0 {
+						pos = b.Nodes[len(b.Nodes)-1].Pos()
+					}
+					o := c.r.bad("R41", k.Struct.Obj().Name()+".deleteChild counts the removed child out exactly once", m.pos(pos),
+						fmt.Sprintf("a path through deleteChild ends with %s: a slot is vacated without childrenLen-- (or the counter moves the wrong way / twice), so the fan-out no longer equals the number of registered children and the shrink thresholds and fill guards are off", res.describe(s)), props...)
+					o.Path = res.witness(b, res.entryOf[pkey{b.Index, s}])
+					continue
+				}
 				if s.n[evDEC] > 0 && s.n[evVAC] == 0 {
 					bad = true
 					pos := u.Decl.Pos()
